@@ -117,20 +117,46 @@ def setter_aliases(c):
 
 
 def gen_instr_history(inst, rng, n_steps):
-    """[(json update, action)] for an instruction object: observations and in-place operand updates
-    with in-range values, through the field or one of its property setters"""
+    """[(json update, action)] for an instruction object: observations (str of the instruction, its
+    debug_str, str of one operand) and in-place updates with in-range values: an operand assigned
+    through the field or one of its property setters, or a mutable operand object (ArrayEntry /
+    ArraySlice) edited in place (its address or a register inside it re-assigned)"""
+    import copy as _cp
+    from netqasm.lang import operand as op
+    from netqasm.lang.encoding import RegisterName
     c = type(inst)
     shape = H.shape_of(c)
     al = setter_aliases(c)
+    cur = [dict(o) for o in H.instr_to_json(inst)["o"]]
     steps = []
     if rng.random() < 0.85:
         steps.append(({"u": "obs"}, ("obs",)))
     for _ in range(n_steps):
-        if shape and rng.random() < 0.7:
+        r = rng.random()
+        mut = [k for k, kd in enumerate(shape) if kd in ("entry", "slice")]
+        if mut and r < 0.3:
+            k = rng.choice(mut)
+            key = "e" if shape[k] == "entry" else "s"
+            vals = list(cur[k][key])
+            which = rng.choice(["address", "reg0"] + (["reg1"] if shape[k] == "slice" else []))
+            if which == "address":
+                v = rng.choice([0, 1, -1, 2 ** 31 - 1, -2 ** 31, rng.randrange(1000)])
+                vals[0] = v
+                act = ("mutop", k, "address", op.Address(v))
+            else:
+                b, i = rng.randrange(4), rng.randrange(16)
+                pos = 1 if which == "reg0" else 3
+                vals[pos], vals[pos + 1] = b, i
+                attr = "index" if shape[k] == "entry" else ("start" if which == "reg0" else "stop")
+                act = ("mutop", k, attr, op.Register(RegisterName(b), i))
+            cur[k] = {key: vals}
+            steps.append(({"u": "set", "k": k, "o": cur[k]}, act))
+        elif shape and r < 0.75:
             k = rng.randrange(len(shape))
-            o = rng.choice(H.values_for(shape[k], rng, 2))
+            o = _cp.deepcopy(rng.choice(H.values_for(shape[k], rng, 2)))   # a private object
             via = rng.choice(al[k])
-            steps.append(({"u": "set", "k": k, "o": H.operand_to_json(o)}, ("set", via, o)))
+            cur[k] = H.operand_to_json(o)
+            steps.append(({"u": "set", "k": k, "o": cur[k]}, ("set", via, o)))
         else:
             steps.append(({"u": "obs"}, ("obs",)))
     return steps
@@ -138,7 +164,12 @@ def gen_instr_history(inst, rng, n_steps):
 
 def apply_instr(inst, action, step):
     if action[0] == "obs":
+        if step % 3 == 2 and inst.operands:
+            return str(inst.operands[step % len(inst.operands)])
         return str(inst) if step % 2 == 0 else inst.debug_str
+    if action[0] == "mutop":
+        setattr(inst.operands[action[1]], action[2], action[3])
+        return None
     setattr(inst, action[1], action[2])
 
 
@@ -422,3 +453,50 @@ def fresh_interpreter_parse(cases):
         return _json.loads(p.stdout.strip().split("\n")[-1])
     except Exception:
         return None
+
+
+# ---- printer histories through the assembler: proto form printed, then assembled, printed again ------
+
+def proto_print_history(fname, rng):
+    """Source with integer constants (array indices, slice bounds, literals the assembler replaces by
+    registers) -> ProtoSubroutine; print it at every level (str(proto), str(command), str(operand));
+    assemble; print the assembled instructions: each line must parse, with the flavour, to exactly the
+    instruction it was printed from, and the whole text to the whole list.  Returns (source, problem)."""
+    from netqasm.lang.parsing.text import assemble_subroutine, parse_text_protosubroutine
+    ent = lambda: "@%d[%s]" % (rng.randrange(5), rng.choice(["R%d" % rng.randrange(6), str(rng.randrange(9))]))
+    sl = lambda: "@%d[%s:%s]" % (rng.randrange(5), rng.choice(["R1", str(rng.randrange(4))]),
+                                 rng.choice(["R2", str(4 + rng.randrange(4))]))
+    cands = [lambda: "store %s %s" % (rng.choice(["R0", "R3", "7"]), ent()), lambda: "load R%d %s" % (rng.randrange(6), ent()),
+             lambda: "undef " + ent(), lambda: "wait_all " + sl(), lambda: "wait_any " + sl(),
+             lambda: "wait_single " + ent(), lambda: "add R0 R1 %d" % rng.randrange(50),
+             lambda: "array %d @%d" % (rng.randrange(1, 9), rng.randrange(5)), lambda: "set R5 -3"]
+    src = [rng.choice(cands)() for _ in range(rng.randrange(1, 5))]
+    try:
+        proto = parse_text_protosubroutine(PREAMBLE + "\n".join(src))
+        seen = [str(proto)]
+        for cmd in proto.commands:
+            seen.append(str(cmd))
+            seen.append(getattr(cmd, "debug_str", ""))
+            for o in getattr(cmd, "operands", []):
+                seen.append(str(o))
+        sub = assemble_subroutine(proto, flavour=H.FLAVOURS[fname]())
+        str(sub)
+        lines = [str(i) for i in sub.instructions]
+    except Exception as e:
+        return src, {"what": "printing / assembling a proto-subroutine raises",
+                     "exception": type(e).__name__ + ": " + str(e)[:120]}
+    for k, (ln, inst) in enumerate(zip(lines, sub.instructions)):
+        ops_txt = " ".join(str(o) for o in inst.operands)
+        if ln != (inst.mnemonic + " " + ops_txt).rstrip():
+            return src, {"what": "str(instruction) is not its mnemonic followed by str() of its current operands",
+                         "instruction": k, "printed": ln, "operands_now": ops_txt}
+        rp, one = real_parse(fname, [ln])
+        if one is None or list(one.instructions) != [inst]:
+            return src, {"what": "an assembled instruction, printed after its proto form had been printed, does not "
+                                 "parse back to itself", "instruction": k, "printed": ln,
+                         "current": H.instr_to_json(inst), "parsed": rp}
+    rp, whole = real_parse(fname, lines)
+    if whole is None or list(whole.instructions) != list(sub.instructions):
+        return src, {"what": "the printed assembled subroutine does not parse back to itself", "printed": lines,
+                     "parsed": rp}
+    return src, None
